@@ -71,7 +71,7 @@ func (a *c09) helmert() {
 			fns = append(fns, fn)
 		}
 	}
-	sort.Slice(fns, func(i, j int) bool { return c.P.Decl(fns[i]).Pos() < c.P.Decl(fns[j]).Pos() })
+	sort.Slice(fns, func(i, j int) bool { return c.P.PosLess(c.P.Decl(fns[i]).Pos(), c.P.Decl(fns[j]).Pos()) })
 	if len(fns) == 0 {
 		c.Unk("C09.R6", "proj#datum-shift", token.NoPos, "no (x,y,z)→(x,y,z) method reading the datum parameter vector found")
 		return
